@@ -1,0 +1,6 @@
+//go:build !verif
+
+package fox
+
+// verifPoint is a no-op unless the package is built with the "verif" tag (verification hooks).
+func verifPoint(string) {}
